@@ -230,6 +230,7 @@ func resetProcess(snap *slog.VerifRegistry) {
 	events = nil
 	attempts = 0
 	failPlan = nil
+	sharedAttrsCache = map[string]slog.Attrs{}
 }
 
 func NewTreeExec(snap *slog.VerifRegistry) *TreeExec {
@@ -315,6 +316,21 @@ func attrsOf(zs []int64) []slog.Attr {
 	}
 	return out
 }
+
+// sharedAttrs hands out THE SAME slog.Attrs value (with spare capacity) every
+// time the same id list is asked for: two loggers given one Attrs value must not end up sharing memory.
+var sharedAttrsCache = map[string]slog.Attrs{}
+
+func sharedAttrs(zs []int64) slog.Attrs {
+	key := fmt.Sprint(zs)
+	if v, ok := sharedAttrsCache[key]; ok {
+		return v
+	}
+	v := make(slog.Attrs, 0, len(zs)+4) // spare capacity, as append-built slices usually have
+	v = append(v, attrsOf(zs)...)
+	sharedAttrsCache[key] = v
+	return v
+}
 func keysOf(zs []int64) []any {
 	var out []any
 	for _, z := range zs {
@@ -340,7 +356,7 @@ func setOpt(s SetOp) slog.Opt {
 		case 0:
 			return slog.WithAttrs(attrsOf(s.Zs)...)
 		case 1:
-			return slog.WithAttrs1(slog.Attrs(attrsOf(s.Zs)))
+			return slog.WithAttrs1(sharedAttrs(s.Zs))
 		default:
 			var args []any
 			for _, a := range attrsOf(s.Zs) {
@@ -371,7 +387,7 @@ func applySet(e *slog.Entry, s SetOp) *slog.Entry {
 		case 0:
 			return e.SetAttrs(attrsOf(s.Zs)...)
 		case 1:
-			return e.SetAttrs1(slog.Attrs(attrsOf(s.Zs)))
+			return e.SetAttrs1(sharedAttrs(s.Zs))
 		default:
 			var args []any
 			for _, a := range attrsOf(s.Zs) {
@@ -405,7 +421,7 @@ func applyWith(e *slog.Entry, s SetOp) *slog.Entry {
 		case 0:
 			return e.WithAttrs(attrsOf(s.Zs)...)
 		case 1:
-			return e.WithAttrs1(slog.Attrs(attrsOf(s.Zs)))
+			return e.WithAttrs1(sharedAttrs(s.Zs))
 		default:
 			var args []any
 			for _, a := range attrsOf(s.Zs) {
